@@ -267,7 +267,9 @@ def run_case(spec):
     def enabled(h, ev):
         # nodes just above the 1e-6 threshold produce pieces of relative length 2e-6;
         # splitting such a piece again is explored on three curves only
-        return tiny_ok or ev not in tiny
+        if ev in tiny and (not tiny_ok or len(prefix) + len(h) >= 2):
+            return False  # only as first or second event of a history, on three curves
+        return True
 
     if spec.get("history") is not None:
         st = replay(e, spec["history"])
